@@ -239,7 +239,12 @@ def count_rule(chk, prog, only=None):
                             if npn in ("zeros", "empty", "ones") and c.args:
                                 shp = c.args[0]
                                 first = shp.elts[0] if isinstance(shp, (ast.Tuple, ast.List)) else shp
-                                lens.add(self2.vn(first, st))
+                                if isinstance(first, ast.Attribute) and first.attr == "shape":
+                                    lens.add("len(%s)" % self2.vn(first.value, st))       # np.zeros(X.shape): as long as X
+                                elif isinstance(first, ast.Call) and ast.unparse(first.func) in ("np.shape", "numpy.shape") and first.args:
+                                    lens.add("len(%s)" % self2.vn(first.args[0], st))
+                                else:
+                                    lens.add(self2.vn(first, st))
                             elif npn in ("zeros_like", "empty_like") and c.args:
                                 lens.add("len(%s)" % self2.vn(c.args[0], st))
                     if len(lens) == 1:
